@@ -80,6 +80,9 @@ func TestVerifC09(t *testing.T) {
 	if !quick {
 		sels = append(sels, sel{vBundledRoot, "testpic_6s"})
 	}
+	if sh, _ := vh.Shard(); sh == 0 {
+		c09OtherKinds(rep)
+	}
 	job := 0
 	for _, s := range sels {
 		a, err := vAsset(s.root, s.path)
@@ -397,4 +400,64 @@ func c09Run(rep *vh.Report, srv *Server, a *vref.VAsset, asset string, r *vref.V
 		}
 	}
 	rep.Sample(map[string]any{"asset": asset, "rep": r.ID, "atoMS": atoMS, "drm": d, "start": start, "n": n, "instants": ts})
+}
+
+// c09OtherKinds: the representations that are not re-chunked sample by sample (subtitles, thumbnails, generated
+// subtitles) must still be served in low-latency mode, with the content of the whole segment.
+func c09OtherKinds(rep *vh.Report) {
+	srv, err := vServer(vBundledRoot)
+	if err != nil {
+		return
+	}
+	payload := func(body []byte, name string) []byte {
+		if strings.HasSuffix(name, ".jpg") {
+			return body
+		}
+		bx, err := vref.Boxes(body)
+		if err != nil {
+			return nil
+		}
+		var out []byte
+		for _, b := range bx {
+			if b.Type == "mdat" && len(b.Raw) >= 8 {
+				out = append(out, b.Raw[8:]...)
+			}
+		}
+		return out
+	}
+	for _, k := range []struct{ cfg, name string }{
+		{"", "imsc1_txt_sv/300.m4s"}, {"", "imsc1_img_en/300.m4s"}, {"", "thumbs/300.jpg"},
+		{"timesubsstpp_en", "timestpp-en/300.m4s"}, {"timesubswvtt_en,sv", "timewvtt-sv/300.m4s"}, {"timesubsstpp_en", "V300/300.m4s"},
+	} {
+		for _, ll := range [][]string{{"chunkdur_0.5", "ato_1"}, {"chunkdur_1", "ato_1.5"}, {"segtimelinenr_1", "chunkdur_0.5", "ato_1"}} {
+			now := int64(602005)
+			wu := fmt.Sprintf("%s/testpic_2s/%s?nowMS=%d", vCfgPrefix(append([]string{k.cfg}, ll[:len(ll)-2]...)...), k.name, now)
+			cu := fmt.Sprintf("%s/testpic_2s/%s?nowMS=%d", vCfgPrefix(append([]string{k.cfg}, ll...)...), k.name, now)
+			var whole, chunked *c09Writer
+			get := func(u string, dst **c09Writer) {
+				vrt.Run(nil, vrt.RunOpts{StartNS: now * 1_000_000, WatchdogS: 60, LoopHorizon: 3_000_000}, func(s *vrt.Sched) {
+					w := &c09Writer{hdr: http.Header{}, s: s}
+					*dst = w
+					srv.Router.ServeHTTP(w, httptest.NewRequest("GET", u, nil))
+				})
+			}
+			get(wu, &whole)
+			get(cu, &chunked)
+			rep.AddExecs(2)
+			rep.AddStates(1)
+			rep.Hit("C09.a")
+			if whole == nil || chunked == nil || whole.code != 200 {
+				continue // not served at all in ordinary mode: nothing to compare with
+			}
+			kind := strings.SplitN(k.name, "/", 2)[0]
+			in := map[string]any{"url": cu, "whole": wu}
+			if chunked.code != 200 {
+				rep.Violate("C09.a", fmt.Sprintf("status-%d:%s", chunked.code, kind), fmt.Sprintf("%s answers %d %q in low-latency mode, 200 in ordinary mode (%s)", cu, chunked.code, vTrim(chunked.buf.Bytes()), wu), in)
+				continue
+			}
+			if !bytes.Equal(payload(whole.buf.Bytes(), k.name), payload(chunked.buf.Bytes(), k.name)) {
+				rep.Violate("C09.a", "payload-differs:"+kind, fmt.Sprintf("%s: the media data differs from that of the whole segment (%s)", cu, wu), in)
+			}
+		}
+	}
 }
